@@ -691,11 +691,23 @@ def check_C02(res, tier, seed):
     # nogood may exclude a verified solution, Unsatisfiable is wrong while one exists
     planted_part(res, "planted_chain", n(tier, 240, 2400), seed + 1000, tier, adopt=C02_ADOPT,
                  min_events={"Learned": 100})
+    # heavily over-constrained ==/!= clause models with a planted solution under tiny learned-nogood
+    # limits (constant clean-up while nogoods asserting equalities are reasons) and, rarely, 100-150
+    # variables under default options; a panic instead of a verdict is a violation here
+    planted_part(res, "planted_eq", n(tier, 200, 2000), seed + 1000, tier,
+                 adopt=dict(C02_ADOPT, **{"C10.NoPanic": "C02.NoVerdict"}), min_events={"Learned": 5000})
+    # equality decisions in the middle of wide domains (two trail entries per decision) with conflicts
+    # over predicates that one half of the decision merely implies
+    tv_part(res, ["eqdecide"], n(tier, 200, 2000), seed + 1000, tier, "eqdecide", adopt=C02_ADOPT,
+            min_events={"Learned": 1000})
 
 
 def check_C03(res, tier, seed):
     tv_part(res, ["iterate"], n(tier, 300, 3000), seed, tier, "iterate", min_events={"IterSolution": 50})
     tv_part(res, ["clauses", "reif", "cumulative"], n(tier, 150, 1500), seed + 3, tier, "kinds")
+    # the same solver enumerated twice (and solved once more): whatever a later enumeration yields has
+    # to be a solution (it yields nothing while the blocking clauses stay behind, F2)
+    tv_part(res, ["iterate2"], n(tier, 200, 2000), seed + 3, tier, "iterate2", min_events={"IterSolution": 500})
 
 
 def check_C04(res, tier, seed):
@@ -772,6 +784,7 @@ def check_C07(res, tier, seed):
     # ~30 variables under every brancher kind, eager restarts and random configurations: each run has
     # to report a (total, correct) solution since a verified one exists
     planted_part(res, "planted_queens", n(tier, 200, 2000), seed + 7, tier, adopt=adopt)
+    planted_part(res, "planted_eq", n(tier, 160, 1600), seed + 7, tier, adopt=adopt)
     res.cov["config_axes_exercised"] = {k: counts.get(k, 0) for k in
                                         ("Learned", "Restart", "NogoodDeleted", "NogoodAdded", "Flip", "Minimise")}
 
